@@ -72,7 +72,7 @@ func judge(t *Tree, set []Atom, routes []*Route, tags []string, rec *callRec, er
 		return nil
 	}
 	if err != nil {
-		return &Fail{Sig: "valid-rejected", Msg: fmt.Sprintf("%s: every option is validly addressed but the call failed: %s", where, firstLines(err.Error()))}
+		return &Fail{Sig: "valid-rejected:" + errClass(err.Error()), Msg: fmt.Sprintf("%s: every option is validly addressed but the call failed: %s", where, firstLines(err.Error()))}
 	}
 	known := map[string]int{}
 	for i, tg := range tags {
@@ -83,14 +83,14 @@ func judge(t *Tree, set []Atom, routes []*Route, tags []string, rec *callRec, er
 		for _, ex := range rec.execs[n.Idx] {
 			for _, tg := range ex {
 				if _, ok := known[tg]; !ok {
-					return &Fail{Sig: "leak-between-calls", Msg: fmt.Sprintf("%s: node %s received payload %s which belongs to another call", where, n.ID, tg)}
+					return &Fail{Sig: "leak-between-calls", Msg: fmt.Sprintf("%s: node %s received payload %s which belongs to another call", where, n.ID, bare(tg))}
 				}
 			}
 		}
 	}
 	for _, tg := range sortedKeys(rec.cbs) {
 		if _, ok := known[tg]; !ok {
-			return &Fail{Sig: "leak-between-calls", Msg: fmt.Sprintf("%s: handler %s of another call fired in this call", where, tg)}
+			return &Fail{Sig: "leak-between-calls", Msg: fmt.Sprintf("%s: handler %s of another call fired in this call", where, bare(tg))}
 		}
 	}
 	// component options, per node
@@ -169,6 +169,30 @@ func judge(t *Tree, set []Atom, routes []*Route, tags []string, rec *callRec, er
 	return nil
 }
 
+// errClass maps the text of an unexpected error to a narrow class for the signature.
+func errClass(s string) string {
+	for _, c := range [][2]string{
+		{"designated an unknown node", "unknown-node"},
+		{"unexpected component option type", "option-type-at-node"},
+		{"is different from which the designated node", "designated-type-mismatch"},
+		{"cannot designate sub path of a component", "sub-path-of-component"},
+		{"designated an empty path", "empty-path"},
+	} {
+		if strings.Contains(s, c[0]) {
+			return c[1]
+		}
+	}
+	return "other"
+}
+
+// bare strips the per-instance case counter from a payload tag (messages must not depend on it).
+func bare(tag string) string {
+	if i := strings.IndexByte(tag, '.'); i >= 0 {
+		return tag[i+1:]
+	}
+	return tag
+}
+
 func firstLines(s string) string {
 	s = strings.ReplaceAll(s, "\n", " | ")
 	if len(s) > 300 {
@@ -192,16 +216,18 @@ type graphCtx struct {
 	routes []*Route // per menu atom
 	byAtom map[string]*Route
 	shared *Instance
+	prev   *Case // the case that ran last on the shared instance
 }
 
 var graphs = map[string]*graphCtx{}
+var quickTier = true
 
 func getGraph(spec string) *graphCtx {
 	if g, ok := graphs[spec]; ok {
 		return g
 	}
 	t := parseTree(spec)
-	g := &graphCtx{tree: t, menu: buildMenu(t), byAtom: map[string]*Route{}}
+	g := &graphCtx{tree: t, menu: buildMenu(t, quickTier), byAtom: map[string]*Route{}}
 	for _, a := range g.menu.Atoms {
 		r := route(t, a)
 		g.routes = append(g.routes, r)
@@ -226,6 +252,7 @@ func (g *graphCtx) routesOf(set []Atom) []*Route {
 // runOn executes one case on the given instance.
 func runOn(in *Instance, g *graphCtx, cs *Case, st *stats) *Fail {
 	t := g.tree
+	in.epoch++
 	r1 := g.routesOf(cs.Set)
 	o1, t1 := in.makeOptions(1, cs.Set)
 	rec, err := in.call(false, o1)
@@ -287,7 +314,8 @@ func main() {
 	c.Res.Explanation = "Graph menu: sequential pipelines of nesting depth <=2 (quick) / <=3 (thorough) built with Graph, Chain and Workflow from lambdas with option types optX / optY, plain lambdas, " +
 		"a fake chat model, a tools node with a recording tool, passthrough nodes and nested graphs, node keys reused across levels. Option menu per graph: for each of the 5 option types (lambda X, lambda Y, chat model, " +
 		"tools node, callbacks) the undesignated option, the option designated to every node path at every depth (length-1 paths via DesignateNode), to every unknown key at every graph level " +
-		"(includes inner keys designated by key only and keys of sibling sub-graphs), to paths below every non-graph node, to all pairs of accepting targets and to (accepting target, unknown node). " +
+		"(includes inner keys designated by key only and keys of sibling sub-graphs), to paths below every non-graph node, to all pairs of accepting targets and to (accepting target, unknown node); " +
+		"in the quick tier the paths that resolve to no node carry three of the five option types (lambda X, tools node, callbacks = the three Option constructors) and one path below each non-graph node, the thorough tier all five and two. " +
 		"All multisets of <=3 menu options are enumerated. Oracle from the statement: the call errors iff the model calls a designation invalid; per node the multiset of received payload tags equals the model's; " +
 		"designated handlers fire at their node and nowhere outside it (inside a designated graph node / tools node they may fire); nothing of another call is ever observed."
 	c.Res.Notes = []string{
@@ -301,6 +329,7 @@ func main() {
 		"cases run on one compiled runnable per graph and worker, so consecutive cases also test call-to-call isolation; a failing case is re-run on a freshly compiled runnable and, if it only fails after its predecessor, reported together with it",
 	}
 
+	quickTier = c.Quick()
 	if v := c.LoadReplay(); v != nil {
 		b, _ := json.Marshal(v.Case)
 		var cs Case
@@ -316,7 +345,7 @@ func main() {
 	stop := false
 
 	// exec runs one case on the shared runnable of its graph and confirms a failure on a fresh one.
-	var prev, current *Case
+	var current *Case
 	// block runs a batch of cases under the hang watchdog (a hang is reported with the case that was running)
 	block := func(name string, f func()) {
 		if err := c.Guard(name, &current, 120*time.Second, func() error { f(); return nil }); err != nil {
@@ -333,7 +362,6 @@ func main() {
 				return
 			}
 			g.shared = in
-			prev = nil
 		}
 		st := &stats{}
 		current = cs
@@ -348,8 +376,8 @@ func main() {
 		if st.outcome != "" {
 			c.Outcome(st.outcome)
 		}
-		last := cs
-		defer func() { prev = last }()
+		prev := g.prev
+		g.prev = cs
 		if fail == nil {
 			c.Sample(cs)
 			return
@@ -382,76 +410,96 @@ func main() {
 		c.Violate(harness.Violation{Scenario: rep.String(), Signature: fail.Sig, Case: rep, Msg: fail.Msg})
 		if c.TooManyViolations() {
 			stop = true
+			c.Res.Capped, c.Res.CapReason = true, "stopped after too many distinct violation classes"
 		}
 	}
 
-	for _, spec := range specsFor(c.Quick()) {
-		g := getGraph(spec)
+	runSets := func(g *graphCtx, name string, sets [][]int) {
 		atoms := g.menu.Atoms
-		n := len(atoms)
-		if c.Worker == 0 {
-			c.Count("menu_atoms:"+spec, int64(n))
-		}
-		// family "set": all multisets of size <= 3, in blocks (i, j) = the two smallest menu indices
-		for i := 0; i < n && !stop; i++ {
-			for j := i; j < n && !stop; j++ {
-				if !c.Mine(fmt.Sprintf("%s set %d %d", spec, i, j)) {
-					continue
+		block(name, func() {
+			for _, ix := range sets {
+				cs := &Case{Graph: g.tree.Spec, Family: "set", Set: make([]Atom, len(ix))}
+				nt := false
+				for p, x := range ix {
+					cs.Set[p] = atoms[x]
+					if g.routes[x].AnyDesign || g.routes[x].Invalid != "" {
+						nt = true
+					}
 				}
-				if c.TimeUp() {
-					stop = true
+				exec(g, cs, g.tree.Spec+"|"+setString(cs.Set), nt)
+				if stop {
 					break
 				}
-				var sets [][]int
-				if i == 0 && j == 0 {
-					sets = append(sets, []int{})
-				}
-				if i == j {
-					sets = append(sets, []int{i})
-				}
-				sets = append(sets, []int{i, j})
-				for k := j; k < n; k++ {
-					sets = append(sets, []int{i, j, k})
-				}
-				block(fmt.Sprintf("%s set %d %d", spec, i, j), func() {
-					for _, ix := range sets {
-						cs := &Case{Graph: spec, Family: "set", Set: make([]Atom, len(ix))}
-						nt := false
-						for p, x := range ix {
-							cs.Set[p] = atoms[x]
-							if g.routes[x].AnyDesign || g.routes[x].Invalid != "" {
-								nt = true
-							}
+			}
+		})
+	}
+	// mine: one shard unit = one block of cases; returns false when the block is not ours or time is up
+	mine := func(name string) bool {
+		if !c.Mine(name) {
+			return false
+		}
+		if c.TimeUp() {
+			stop = true
+			return false
+		}
+		return true
+	}
+	// simplest first, over all graphs: single options, pairs of calls, sets of two, sets of three
+	for _, phase := range []string{"set1", "pair", "set2", "set3"} {
+		for _, spec := range specsFor(c.Quick()) {
+			g := getGraph(spec)
+			atoms := g.menu.Atoms
+			n := len(atoms)
+			if c.Worker == 0 && phase == "set1" {
+				c.Count("menu_atoms:"+spec, int64(n))
+			}
+			for i := 0; i < n && !stop; i++ {
+				switch phase {
+				case "set1":
+					if name := fmt.Sprintf("%s set1 %d", spec, i); mine(name) {
+						sets := [][]int{{i}}
+						if i == 0 {
+							sets = [][]int{{}, {i}}
 						}
-						exec(g, cs, spec+"|"+setString(cs.Set), nt)
-						if stop {
-							break
+						runSets(g, name, sets)
+					}
+				case "pair": // two consecutive calls with different single options
+					if name := fmt.Sprintf("%s pair %d", spec, i); mine(name) {
+						block(name, func() {
+							for j := 0; j < n && !stop; j++ {
+								if i == j {
+									continue
+								}
+								cs := &Case{Graph: spec, Family: "pair", Set: []Atom{atoms[i]}, Set2: []Atom{atoms[j]}}
+								nt := nontrivialSet([]*Route{g.routes[i], g.routes[j]})
+								exec(g, cs, spec+"|"+setString(cs.Set)+">"+setString(cs.Set2), nt)
+							}
+						})
+					}
+				case "set2":
+					if name := fmt.Sprintf("%s set2 %d", spec, i); mine(name) {
+						var sets [][]int
+						for j := i; j < n; j++ {
+							sets = append(sets, []int{i, j})
+						}
+						runSets(g, name, sets)
+					}
+				case "set3":
+					for j := i; j < n && !stop; j++ {
+						if name := fmt.Sprintf("%s set3 %d %d", spec, i, j); mine(name) {
+							var sets [][]int
+							for k := j; k < n; k++ {
+								sets = append(sets, []int{i, j, k})
+							}
+							runSets(g, name, sets)
 						}
 					}
-				})
+				}
 			}
-		}
-		// family "pair": two consecutive calls with different single options
-		for i := 0; i < n && !stop; i++ {
-			if !c.Mine(fmt.Sprintf("%s pair %d", spec, i)) {
-				continue
-			}
-			if c.TimeUp() {
-				stop = true
+			if stop {
 				break
 			}
-			block(fmt.Sprintf("%s pair %d", spec, i), func() {
-				for j := 0; j < n && !stop; j++ {
-					if i == j {
-						continue
-					}
-					cs := &Case{Graph: spec, Family: "pair", Set: []Atom{atoms[i]}, Set2: []Atom{atoms[j]}}
-					nt := nontrivialSet([]*Route{g.routes[i], g.routes[j]})
-					exec(g, cs, spec+"|"+setString(cs.Set)+">"+setString(cs.Set2), nt)
-				}
-			})
 		}
-		g.shared = nil
 		if stop {
 			break
 		}
